@@ -201,12 +201,35 @@ def cmp_term(op, a, b):
     return Lin.atom(("cmp", op, d))
 
 
+FLOAT_TYPES = ("float", "double", "long double")
+
+
+def is_float_type(t):
+    t = (t or "").replace("const ", "").replace("volatile ", "").strip()
+    return t in FLOAT_TYPES
+
+
+def fcmp_term(op, a, b):
+    """comparison of floating-point operands: IEEE semantics (NaN is unordered), so neither the difference form nor
+    the flip !(a < b) == (b <= a) of the integer domain applies; only a > b == b < a and the symmetry of ==, != do"""
+    a, b = lin(a), lin(b)
+    if op == ">":
+        op, a, b = "<", b, a
+    elif op == ">=":
+        op, a, b = "<=", b, a
+    if op in ("==", "!=") and show(b) < show(a):
+        a, b = b, a
+    return Lin.atom(("fcmp", op, a, b))
+
+
 def negate_cond(c):
     c = lin(c)
     if c.is_const():
         return Lin.const(0 if c.k else 1)
     if len(c.terms) == 1 and c.k == 0 and c.terms[0][1] == 1:
         a = c.terms[0][0]
+        if a[0] == "fcmp" and a[1] in ("==", "!="):
+            return Lin.atom(("fcmp", "!=" if a[1] == "==" else "==", a[2], a[3]))
         if a[0] == "cmp":
             op, d = a[1], a[2]
             if op == "==":
@@ -227,7 +250,7 @@ def truthy(v):
     v = lin(v)
     if v.is_const():
         return Lin.const(1 if v.k else 0)
-    if len(v.terms) == 1 and v.k == 0 and v.terms[0][1] == 1 and v.terms[0][0][0] in ("cmp", "not", "and", "or", "bool"):
+    if len(v.terms) == 1 and v.k == 0 and v.terms[0][1] == 1 and v.terms[0][0][0] in ("cmp", "fcmp", "not", "and", "or", "bool"):
         return v
     return cmp_term("!=", v, 0)
 
@@ -801,6 +824,8 @@ class Exec:
                 la = a[2] if isinstance(a, tuple) else lin(a.off)
                 lb = b[2] if isinstance(b, tuple) else lin(b.off)
                 return cmp_term(op, la, lb)
+            if is_float_type(n["lhs"].get("t")) or is_float_type(n["rhs"].get("t")):
+                return fcmp_term(op, self.scalar(a), self.scalar(b))
             return cmp_term(op, self.scalar(a), self.scalar(b))
         if op == "<=>":
             return Lin.atom(("spaceship", lin(self.scalar(a)), lin(self.scalar(b))))
